@@ -275,3 +275,19 @@ Example c06_cover_example :
   get_weighted_cover [[1; 2]; [3]; [1; 2; 3]; [3; 2; 1]]%positive [1; 2; 3]%positive
   = Cover [[3]; [1; 2]]%positive.
 Proof. exact cover_example. Qed.
+
+(** The post-processing half of calculate_logic_gates inside the model (Gate/PostProcess.v): soundness under the stated,
+    checkable hypotheses on the miner's tree, and the two refutations (with trees pm4py really returns) showing that
+    they cannot simply be dropped. *)
+From V Require Import Gate.PostProcess Gate.PostProcessProofs.
+Theorem c06_post_sound_partial : forall ord F t r,
+  nonempty_sets_b F = true -> (forall s, In s F -> padmits t (norm s)) ->
+  im_shape_b t = true -> im_tight_b F t = true -> cover_safe_b F t = true ->
+  post_res ord F t = FOk r -> forall s, In s F -> padmits r (norm s).
+Proof. exact post_sound_partial. Qed.
+Print Assumptions c06_post_sound_partial.
+
+Theorem c06_post_sound_refuted :
+  exists F t, F <> [] /\ (forall s, In s F -> padmits t s) /\ exists s, In s F /\ ~ padmits (post F t) s.
+Proof. exact post_sound_refuted. Qed.
+Print Assumptions c06_post_sound_refuted.
